@@ -6,7 +6,7 @@
 // observation:  items joined by " ; "
 //     cp:<label>:<live>:<kinds>     script called checkpoint(label): number of live Tracked objects and the
 //                                   construction kind of each live one, in id order
-//                                   (D default, I from int, C copy, M move, V converted from Seed, X C++-side)
+//                                   (D default, I from int, C copy, M move, V converted from Seed, X C++-side, O member of an Owner)
 //     in:<fn>:<live>                a registered C++ function was entered with that many live objects
 //     t:<id>                        a member of a live object was used (script `get`/`set`/`id` or C++ side)
 //     err:<class>                   the segment ended with that exception class
@@ -75,6 +75,7 @@ namespace {
   };
 
   struct Seed { int v; explicit Seed(int x) : v(x) {} };
+  struct Owner { Tracked inner; Owner() : inner(5, 'O') {} };   // a C++ object that contains an instrumented member
 
   void in(const char *fn) { g->items.push_back(std::string("in:") + fn + ":" + std::to_string(g->live())); }
 
@@ -104,7 +105,10 @@ namespace {
   Tracked *ptr_of(Tracked &t) { in("ptr_of"); return &t; }
   const Tracked *cptr_of(const Tracked &t) { in("cptr_of"); return &t; }
   std::shared_ptr<Tracked> sp_of(const std::shared_ptr<Tracked> &t) { in("sp_of"); return t; }
-  const std::shared_ptr<Tracked> &csp_of(const std::shared_ptr<Tracked> &t) { in("csp_of"); return t; }
+  // (a function returning its own `const std::shared_ptr<T> &` parameter is not usable through the engine: the
+  //  parameter is a temporary of call_func; see the builder's report)
+  const std::shared_ptr<Tracked> &cxx_csp() { in("cxx_csp"); return *g_cxx_owned; }
+  Tracked *cxx_ptr() { in("cxx_ptr"); return g_cxx_owned->get(); }
   Tracked copy_of(const Tracked &t) { in("copy_of"); return t; }
   Tracked &cxx_ref() { in("cxx_ref"); return **g_cxx_owned; }
   std::shared_ptr<Tracked> cxx_sp() { in("cxx_sp"); return *g_cxx_owned; }
@@ -126,6 +130,10 @@ namespace {
     m->add(fun(&Tracked::set), "set");
     m->add(fun(&Tracked::ident), "id");
     m->add(fun([](Tracked &a, const Tracked &b) -> Tracked & { a = b; return a; }), "=");
+    m->add(user_type<Owner>(), "Owner");
+    m->add(constructor<Owner()>(), "Owner");
+    m->add(constructor<Owner(const Owner &)>(), "Owner");
+    m->add(fun(&Owner::inner), "inner");
     m->add(user_type<Seed>(), "Seed");
     m->add(constructor<Seed(int)>(), "Seed");
     m->add(type_conversion<Seed, Tracked>([](const Seed &s) { return Tracked(s.v, 'V'); }));
@@ -150,7 +158,8 @@ namespace {
     m->add(fun(&ptr_of), "ptr_of");
     m->add(fun(&cptr_of), "cptr_of");
     m->add(fun(&sp_of), "sp_of");
-    m->add(fun(&csp_of), "csp_of");
+    m->add(fun(&cxx_csp), "cxx_csp");
+    m->add(fun(&cxx_ptr), "cxx_ptr");
     m->add(fun(&copy_of), "copy_of");
     m->add(fun(&cxx_ref), "cxx_ref");
     m->add(fun(&cxx_sp), "cxx_sp");
@@ -188,7 +197,8 @@ namespace {
     bool opt = true;
     auto segs = segments(vf::unhex(line), opt);
     {
-      auto chai = vf::make_engine(opt);
+      static const auto lib = verif_stdlib();     // the library module is shared between engines, as applications do
+      auto chai = std::make_unique<chaiscript::ChaiScript_Basic>(lib, verif_parser(opt));
       chai->add(life_module());
       for (auto &s : segs) {
         try {
@@ -207,6 +217,7 @@ namespace {
     g = nullptr;
     return out;
   }
+
 } // namespace
 
 int main(int argc, char **argv) {
